@@ -90,9 +90,7 @@ def applyRecs (t : Tbl K V) (rs : List (Rec K V)) : Tbl K V :=
 
 /-- Newest image of `k` inside one record (later entries win), as the log overlay map does. -/
 def recLookup (r : Rec K V) (k : K) : Option (Cell V) :=
-  match r.reverse.find? (fun kc => kc.1 = k) with
-  | some kc => some kc.2
-  | none => none
+  (r.reverse.find? (fun kc => kc.1 = k)).map (fun kc => kc.2)
 
 /-- Log-overlay lookup: newest published record holding an image of `k`. -/
 def logLookup (rs : List (Rec K V)) (k : K) : Option (Cell V) :=
@@ -161,9 +159,7 @@ def cleanOp (id : Nat) (ov : K → Option (Nat × Option V)) (op : Op K V) :
 
 /-- What the planner sees: log overlay over tables. -/
 def view (s : St K V) : Tbl K V := fun k =>
-  match logLookup s.logged k with
-  | some c => c
-  | none => s.tables k
+  (logLookup s.logged k).getD (s.tables k)
 
 def planRec (kind : K → Kind) (t : Tbl K V) (ops : List (Op K V)) : Rec K V :=
   let t' := applyOps kind t ops
@@ -203,6 +199,12 @@ def get (s : St K V) (k : K) : Option V :=
   match s.overlay k with
   | some (_, v) => v
   | none => (view s k).map Prod.fst
+
+/-- `Db::get_size`: same lookup order, reporting the length. -/
+def getSize (len : V → Nat) (s : St K V) (k : K) : Option Nat :=
+  match s.overlay k with
+  | some (_, v) => v.map len
+  | none => (view s k).map (fun c => len c.1)
 
 /-- `kill_logs` on the drop path without a background error. -/
 def drain (kind : K → Kind) (s : St K V) : St K V :=
